@@ -55,6 +55,10 @@ CHECKS = {
             "model-based operation histories (Hypothesis lists, shrinkable) on real client/server stacks with a spoofing attacker node; oracle = token model of live (peer, invoke ID) pairs",
             "Two real client stacks and up to four server stacks whose applications answer only on command are driven by generated histories of submissions (library and application-chosen invoke IDs, deliberate collisions), out-of-order answers, verbatim re-injection of earlier replies, forged acks/errors/segment-acks/aborts from right and wrong peer addresses with live, foreign and completed IDs, and time steps around the APDU timeout; bursts of up to 40 outstanding requests and >256 sequential requests (wrap-around) are included. A token model decides that no live ID is reused per peer, every confirmation belongs to a live (peer, ID) and carries a payload that a reply from that peer with that ID really carried, nothing is delivered for finished transactions, each request is confirmed exactly once and indicated exactly once at the server, and equal IDs from two clients are served independently.",
             "Client APDU timeout < server application timeout by construction; a forged reply with the right address and ID is (correctly) indistinguishable from the real one; reuse of an ID the server still processes is excused as a duplicate by design."),
+    "C10": ("exploration",
+            "exhaustive single-octet mutations / truncations / insertions of valid request frames + Hypothesis garbage, bodies and interleaved histories injected by an attacker node into a real device on the virtual LAN; frames classified by independent NPCI/APCI decoders",
+            "Valid requests of the supported services, a header-only request for every service choice 0..255, all their single-octet substitutions (sampled values; all 256 in thorough), truncations and insertions, Hypothesis-generated parameter bodies and NPDU garbage, requests arriving through two routers from remote sources, segmented-response dialogs with valid and corrupted segment-acks, and histories mixing garbage with valid frames in the same instant are injected into a real device; every frame the reference decoders classify as a well-framed confirmed request must receive exactly one reply of an admissible type with its invoke ID, routed back to its source; afterwards the device must hold no transaction or transaction timer and answer a final ReadProperty correctly.",
+            "Frames enter at the network layer (BVLL garbage is not injected here); frames with a DADR are not judged; COV lifetime timers created by mutated SubscribeCOV requests are not residue; the exception named in a signature is the first one the event loop swallowed in that history."),
 }
 
 NOT_YET = {}
